@@ -100,8 +100,10 @@ def cases(tier, seed):
       if name == 'LMNN':
         p.update(n_neighbors=int(1 + i % 3),
                  regularization=[0.1, 0.5, 0.9][i % 3],
+                 # (absurdly large rates are legal: the line search halves
+                 # them, a hundred times and more if it must)
                  learn_rate=[1e-7, 1e-4, 1e-2, 0.3, 1e-3, 0.1, 1.0, 3e-3, 0.03,
-                             3.0, 1e-5][i % 11],
+                             3.0, 1e-5, 1e40, 1e80][i % 13],
                  max_iter=(int(r.choice([0, 1, 2])) if zero else
                            int(r.randint(4, 24))),
                  min_iter=[3, 0, 1, 5][(i // 3) % 4],
